@@ -725,7 +725,7 @@ func c15EndToEnd(c *vf.Ctx, rng *rand.Rand) {
 			os.RemoveAll(dir)
 			continue
 		}
-		if done%4 >= 2 {
+		if !cosmetic || done%4 == 0 {
 			// a read-only re-attach (mrp --inspect): the same comparison applies;
 			// once attached mrp stays alive until it is stopped
 			r3 := cs.Run(vrun.RunOpts{Args: append(append([]string{}, args...), "--inspect"), Seed: seed, Timeout: 15 * time.Second})
